@@ -88,6 +88,7 @@ class ContractResult:
         self.notes = []
         self.vacuity = {}
         self.seconds = 0.0
+        self.also = {}
 
 
 def generate(contract):
@@ -140,7 +141,16 @@ def generate(contract):
         ctx.interp = it
         it.index_loops(fn.node)
         try:
-            v = it.call_function(fn.node, S.args, S.kwargs)
+            if hasattr(contract, 'body'):
+                # harness: the contract composes calls of real functions (each executed from its current source)
+                def call(ref, *a, **k):
+                    f = extract.get(ref)
+                    res.also[ref] = f
+                    it.index_loops(f.node)
+                    return it.call_function(f.node, a, k)
+                v = contract.body(ctx, S, call)
+            else:
+                v = it.call_function(fn.node, S.args, S.kwargs)
             return PathResult(ctx, 'return', value=v)
         except PyRaise as e:
             return PathResult(ctx, 'raise', exc=e)
@@ -174,7 +184,12 @@ def generate(contract):
         res.dropped |= ctx.dropped
         res.notes += ctx.notes
 
-        def mk(clause, hyps, goal, kind, info=None, bounded=None):
+        def mk(clause, hyps, goal, kind, info=None, bounded=None, _split=True):
+            g = zbool(goal)
+            if _split and kind in ('invariant', 'ensures') and z3.is_and(g) and g.num_args() > 1 and getattr(contract, 'split_conjunctions', False):
+                for n_, part in enumerate(g.children()):
+                    mk('%s#%d' % (clause, n_), hyps, part, kind, info, bounded, _split=True)
+                return
             name = '%s/%s/path%d/%s' % (prop, key, k, clause)
             ob = Obligation(name, hyps, zbool(goal), kind, fn=key, clause=clause, path=k,
                             bounded=bounded or contract.bounded, info=info or {}, symbols=list(ctx.symbols))
